@@ -87,6 +87,7 @@ int vs_fcntl(int fd, int cmd, ...)
   va_start(ap, cmd);
   long arg = va_arg(ap, long);
   va_end(ap);
+  jitter();  // e.g. between pipe() and setting close-on-exec on its ends
   return fcntl(fd, cmd, arg);
 }
 int vs_fileno(FILE *f) { return fileno(f); }
